@@ -12,10 +12,27 @@ let parse_ev e =
   while !i < n && e.[!i] >= '0' && e.[!i] <= '9' do incr i done;
   (e.[0], int_of_string (String.sub e 1 (!i - 1)), String.sub e !i (n - !i))
 
+(* order ids, request ids and page numbers become Peano naturals in the model: a recorded number beyond this bound cannot come
+   from a run of a few thousand requests, and converting it would not end; the trace is reported as not accepted *)
+let max_num = 1_000_000
+let first_huge evs =
+  let rec go i = function
+    | [] -> None
+    | e :: rest ->
+      let big = (try let (_, n, suf) = parse_ev e in
+                     n > max_num || (String.length suf > 1 && suf.[0] = 'p' && int_of_string (String.sub suf 1 (String.length suf - 1)) > max_num)
+                 with _ -> false) in
+      if big then Some i else go (i + 1) rest in
+  go 0 evs
+let guarded get kv f =
+  match first_huge (split_events (get kv "tr")) with
+  | Some i -> Printf.sprintf "accepted=0 at=%d number-out-of-range" i
+  | None -> f kv
+
 let ints l = String.concat "," (List.map (fun x -> string_of_int (int_of_nat x)) l)
 
 let install register get =
-  register "pmtrace" (fun kv ->
+  register "pmtrace" (fun kv -> guarded get kv @@ fun kv ->
     let evs = List.map (fun e ->
       let (c, oid, suf) = parse_ev e in
       let oid = nat_of_int oid in
@@ -28,9 +45,28 @@ let install register get =
       (* the emissions the trace has shown: the model's, without those the last controller step still owes *)
       let l = s.emitted in
       let shown = List.filteri (fun i _ -> i < List.length l - List.length owed) l in
-      Printf.sprintf "accepted=1 emitted=%s" (if shown = [] then "-" else ints shown)
+      let settled = (try get kv "settled" with _ -> "0") = "1" in
+      Printf.sprintf "accepted=1 emitted=%s%s" (if shown = [] then "-" else ints shown)
+        (if settled then Printf.sprintf " quiescent=%d arrived=%d" (if quiescent s then 1 else 0) (int_of_nat s.arrived) else "")
     | Inr i -> Printf.sprintf "accepted=0 at=%d" (int_of_nat i));
-  register "cctrace" (fun kv ->
+  register "wirescan" (fun kv ->
+    let parts = List.map (fun e ->
+      if e = "x" then (O, PPay) else
+      let (c, id, _) = parse_ev e in
+      (* sender numbers only need to be distinct per request; 0 is kept for "x" *)
+      (nat_of_int (id + 1), (match c with 'o' -> POne | 'h' -> PHdr | 'p' -> PPay | _ -> failwith ("bad part " ^ e)))) (split_events (get kv "wire")) in
+    match scan parts None with
+    | Some None -> "scan=whole"
+    | Some (Some _) -> "scan=open"
+    | None -> "scan=broken");
+  register "idswrap" (fun kv ->
+    (* the ids of k consecutive nextID calls from counter c0: count of zero ids, sum and xor of all of them *)
+    let ids = ids_from (n_of_hex (get kv "c0")) (nat_of_int (int_of_string ("0x" ^ get kv "k"))) in
+    let sum = List.fold_left (fun a x -> a + int_of_n x) 0 ids in
+    let xr = List.fold_left (fun a x -> a lxor int_of_n x) 0 ids in
+    let zeros = List.length (List.filter (fun x -> int_of_n x = 0) ids) in
+    Printf.sprintf "n=%d sum=%d xor=%d zeros=%d" (List.length ids) sum xr zeros);
+  register "cctrace" (fun kv -> guarded get kv @@ fun kv ->
     let maxsid = ref 0 in
     let evs = List.map (fun e ->
       let (c, sid, suf) = parse_ev e in
@@ -44,7 +80,7 @@ let install register get =
     match caccept_trace (nat_of_int !maxsid) evs with
     | Inl _ -> "accepted=1"
     | Inr i -> Printf.sprintf "accepted=0 at=%d" (int_of_nat i));
-  register "altrace" (fun kv ->
+  register "altrace" (fun kv -> guarded get kv @@ fun kv ->
     let evs = List.map (fun e ->
       let (c, oid, suf) = parse_ev e in
       match c with
